@@ -23,6 +23,14 @@ def ssErr {α} (sh : α → String) : SearchSpace.SSErr α → String
   | .precisionZero i => s!"err PrecisionZeroError {i}"
   | .precisionGreaterThanRange i l u p => s!"err PrecisionGreaterThanBoundsRangeError {i} {sh l} {sh u} {sh p}"
 
+def rowLe : List Int → List Int → Bool
+  | [], _ => true
+  | _ :: _, [] => false
+  | a :: as, b :: bs => if a < b then true else if b < a then false else rowLe as bs
+
+def showRows (rs : List (List Int)) : String := joinSp (rs.map (fun r => ",".intercalate (r.map toString)))
+def showNats (ns : List Nat) : String := ",".intercalate (ns.map toString)
+
 def handle (op : String) (args : List String) : Option String :=
   match op with
   | "snap.closest" => do
@@ -41,6 +49,18 @@ def handle (op : String) (args : List String) : Option String :=
         pure (gs, rows)) args
       if gs.any (·.isEmpty) then none else
       pure (joinSp ((Snap.digitize fdist gs rows 0.0).map fl))
+  | "dedup.find" => do
+      let (dims, new, ex) ← run (do
+        let dims ← nat; let new ← list (rep int dims); let ex ← list (rep int dims); pure (dims, new, ex)) args
+      let _ := dims
+      pure ("[" ++ showNats (Dedup.findDuplicates rowLe new ex) ++ "]")
+  | "dedup.sample" => do
+      let (passes, b, ex, script) ← run (do
+        let passes ← nat; let b ← nat; let dims ← nat
+        let ex ← list (rep int dims); let script ← list (list (rep int dims)); pure (passes, b, ex, script)) args
+      let o := Dedup.sample rowLe (Dedup.drawScript script) passes ex b
+      pure (s!"samples {showRows o.samples} | requests {showNats o.requests} | runs " ++
+        ";".intercalate (o.runs.map showNats) ++ s!" | warned {if o.warned then 1 else 0}")
   | "ss.check" => do
       let (b, p) ← run (do let b ← list (list flt); let p ← list flt; pure (b, p)) args
       match SearchSpace.checkBounds (0.0 : Float) b p with
